@@ -25,7 +25,11 @@ NAMES = [
     "x/.h/y.txt",
     ".git/HEAD",
     "x/y/z.txt",
+    "a\u00e9.txt",  # non-ASCII letter after an ASCII start
+    "x/b\u0663",  # non-ASCII digit after an ASCII start, nested
 ]
+# the names used for trees with three entries in the quick tier
+NAMES_CORE = [0, 1, 2, 3, 4, 6, 8, 9, 10, 12]
 KINDS = [
     "text",  # UTF-8 with surrounding whitespace
     "crlf",  # CRLF line ends, inner whitespace
@@ -60,15 +64,15 @@ META = {
     "rule": (
         "every directory tree with <= N entries with distinct names from the name "
         "alphabet (valid keys, dotted keys, underscore, hidden file, space, leading "
-        "digit, non-ASCII, dash, nested, nested under hidden dir, .git/HEAD, doubly "
-        "nested) x kind alphabet (text with whitespace, CRLF text, empty, invalid UTF-8, "
+        "digit, non-ASCII first / inner letter / inner digit, dash, nested, nested under "
+        "hidden dir, .git/HEAD, doubly nested) x kind alphabet (text with whitespace, CRLF text, empty, invalid UTF-8, "
         "empty directory, symlink to file, symlink to directory, broken symlink); "
         "non-trivial = the tree has >= 1 non-hidden regular file; distinct by "
         "construction (set of (name, kind))"
     ),
     "bounds": {
-        "quick": "N=3 entries over 12 names x 8 kinds (all trees, plus all trees of the thorough alphabet with <= 3 entries)",
-        "thorough": "quick space plus N=4 entries over 8 names x 6 kinds",
+        "quick": "N<=2 entries over 14 names x 8 kinds, N=3 entries over 10 core names x 8 kinds",
+        "thorough": "N<=3 entries over 14 names x 8 kinds plus N=4 entries over 8 names x 6 kinds",
     },
     "assumptions": [
         "lenient points: a symlink to a regular file may be mapped (target content) or "
@@ -126,7 +130,10 @@ def shards(tier: str) -> List[Any]:
     quick = BOUNDS["quick"]
     # quick space, sharded by the name combination
     for n in range(0, quick["max_entries"] + 1):
-        for name_combo in itertools.combinations(range(len(NAMES)), n):
+        indices = list(range(len(NAMES)))
+        if n == 3 and tier == "quick":
+            indices = NAMES_CORE
+        for name_combo in itertools.combinations(indices, n):
             result.append(("q", n, name_combo))
     if tier == "thorough":
         thorough = BOUNDS["thorough"]
